@@ -359,12 +359,8 @@ Proof.
     + intros rho. unfold sat. simpl.
       apply cmp_scale with (k := k); [exact Ek|].
       rewrite (pnorm_sound rho _ _ E1), (pnorm_sound rho _ _ E2).
-      rewrite peval_pneg.
-      pose proof (filter_split rho (fun t => mono_in (snd t) lo) (pscale k (pclean (psub lc rc)))) as Hs.
-      rewrite peval_pscale, peval_pclean, peval_psub in Hs.
-      set (x := peval rho (filter (fun t => mono_in (snd t) lo) _)) in *.
-      set (y := peval rho (filter (fun t => negb (mono_in (snd t) lo)) _)) in *.
-      lra.
+      rewrite peval_psub, peval_pscale, peval_pclean, peval_psub.
+      set (x := peval rho (map _ lo)). lra.
 Qed.
 
 Lemma existsb_sound {A} (f : A -> bool) l : existsb f l = true -> exists a, f a = true.
@@ -440,21 +436,19 @@ Proof.
   lra.
 Qed.
 
+Lemma in_somes' {A} (l : list (option A)) a : In a (somes l) -> In (Some a) l.
+Proof.
+  unfold somes. intros H. apply in_flat_map in H. destruct H as ([x|] & H1 & H2); simpl in H2; [|tauto].
+  destruct H2 as [->|[]]. exact H1.
+Qed.
+
 Lemma cover_by_sound d eqs out c m :
-  cover d eqs out c = CBy m ->
+  In m (cover d eqs out c) ->
   exists o, In o out /\ rounded d m o /\
     forall rho, sat_all rho eqs -> cdefined rho c -> cdefined rho o -> (sat rho c <-> msat rho m).
 Proof.
-  unfold cover. destruct (first_some (match_cond d eqs c) out) as [m'|] eqn:E.
-  - intros H. injection H as <-. apply first_some_sound in E. destruct E as (o & Hin & E).
-    exists o. split; [exact Hin|]. apply match_cond_sound. exact E.
-  - destruct (trivial c); discriminate.
-Qed.
-
-Lemma cover_omitted_sound d eqs out c rho : cover d eqs out c = COmitted -> cdefined rho c -> sat rho c.
-Proof.
-  unfold cover. destruct (first_some (match_cond d eqs c) out); [discriminate|].
-  destruct (trivial c) eqn:E; [|discriminate]. intros _. apply trivial_sound. exact E.
+  unfold cover. intros H. apply in_somes' in H. apply in_map_iff in H. destruct H as (o & E & Hin).
+  exists o. split; [exact Hin|]. apply match_cond_sound. exact E.
 Qed.
 
 Lemma expr_eqb_eq a : forall b, expr_eqb a b = true -> a = b.
@@ -478,13 +472,6 @@ Proof.
     apply andb_true_iff in H. destruct H as [C1 C2]. exists lo, ro. repeat split; auto using close_b_sound.
 Qed.
 
-Lemma in_mids rs m : In m (mids rs) <-> In (CBy m) rs.
-Proof.
-  unfold mids. rewrite in_flat_map. split.
-  - intros ([| |m'] & H1 & H2); simpl in H2; try tauto. destruct H2 as [->|[]]. exact H1.
-  - intros H. exists (CBy m). simpl. auto.
-Qed.
-
 (* ------------------------------------------------------------------ the checker is sound *)
 Theorem check_pre_sound d conds out :
   check_pre d conds out = true ->
@@ -498,32 +485,32 @@ Proof.
   set (f := fun c => cover d (if is_eq c then [] else eqs) out c).
   intros H. apply andb_true_iff in H. destruct H as [H1 H2].
   rewrite forallb_forall in H1, H2.
-  exists (mids (map f conds)). split; [|split].
+  exists (flat_map f conds). split; [|split].
   - intros rho Dc Do. unfold defined_all, sat_all in *. rewrite Forall_forall in Dc, Do.
     split.
     + intros Hs. rewrite Forall_forall in Hs. apply Forall_forall. intros m Hm.
-      apply in_mids in Hm. apply in_map_iff in Hm. destruct Hm as (c & Hc & Hin).
+      apply in_flat_map in Hm. destruct Hm as (c & Hin & Hc).
       unfold f in Hc. apply cover_by_sound in Hc. destruct Hc as (o & Ho & _ & E).
       apply E; auto.
       destruct (is_eq c); [constructor|]. unfold sat_all. apply Forall_forall. intros e He.
       apply filter_In in He. apply Hs. tauto.
     + intros Hm. rewrite Forall_forall in Hm.
+      assert (Hone : forall c es, In c conds -> sat_all rho es -> f c = cover d es out c -> sat rho c).
+      { intros c es Hc Hes Ef. specialize (H1 c Hc). change (match f c with [] => trivial c | _ :: _ => true end = true) in H1.
+        destruct (f c) as [|m ms] eqn:Efc.
+        - apply trivial_sound; auto.
+        - assert (Hin : In m (flat_map f conds)).
+          { apply in_flat_map. exists c. split; [exact Hc|]. rewrite Efc. left. reflexivity. }
+          assert (Hc' : In m (cover d es out c)) by (rewrite <- Ef; left; reflexivity).
+          apply cover_by_sound in Hc'. destruct Hc' as (o & Ho & _ & E). apply E; auto. }
       assert (Heqs : sat_all rho eqs).
       { unfold sat_all. apply Forall_forall. intros e He. apply filter_In in He. destruct He as [He1 He2].
-        specialize (H1 (f e) (in_map f _ _ He1)).
-        destruct (f e) as [| |m] eqn:Ef; [discriminate| |].
-        - unfold f in Ef. eapply cover_omitted_sound; eauto.
-        - assert (Hin : In m (mids (map f conds))) by (apply in_mids; rewrite <- Ef; apply in_map; exact He1).
-          unfold f in Ef. rewrite He2 in Ef. apply cover_by_sound in Ef. destruct Ef as (o & Ho & _ & E).
-          apply E; auto. constructor. }
+        apply (Hone e [] He1); [constructor|]. unfold f. rewrite He2. reflexivity. }
       apply Forall_forall. intros c Hc.
-      specialize (H1 (f c) (in_map f _ _ Hc)).
-      destruct (f c) as [| |m] eqn:Ef; [discriminate| |].
-      * unfold f in Ef. eapply cover_omitted_sound; eauto.
-      * assert (Hin : In m (mids (map f conds))) by (apply in_mids; rewrite <- Ef; apply in_map; exact Hc).
-        unfold f in Ef. apply cover_by_sound in Ef. destruct Ef as (o & Ho & _ & E).
-        apply E; auto. destruct (is_eq c); [constructor | exact Heqs].
-  - intros m Hm. apply in_mids in Hm. apply in_map_iff in Hm. destruct Hm as (c & Hc & _).
+      destruct (is_eq c) eqn:Ec.
+      * apply (Hone c [] Hc); [constructor|]. unfold f. rewrite Ec. reflexivity.
+      * apply (Hone c eqs Hc Heqs). unfold f. rewrite Ec. reflexivity.
+  - intros m Hm. apply in_flat_map in Hm. destruct Hm as (c & _ & Hc).
     unfold f in Hc. apply cover_by_sound in Hc. destruct Hc as (o & Ho & R & _). eauto.
   - intros o Ho. specialize (H2 o Ho). apply existsb_exists in H2. destruct H2 as (m & Hm & R).
     exists m. split; [exact Hm|]. apply rounds_to_sound. exact R.
